@@ -74,7 +74,10 @@ type thrSpec struct {
 }
 
 var thresholds = []thrSpec{
-	{"-1", true, []int{0}, 1}, {"0", false, []int{0}, 1}, {"0.5", false, []int{1}, 2}, {"1", false, []int{1}, 1},
+	{"-1", true, []int{0}, 1}, {"0", false, []int{0}, 1},
+	// between the levels of concern of reference groups with one, two and three references (k / 25 000)
+	{"0.00005", false, []int{1}, 20000}, {"0.0001", false, []int{1}, 10000},
+	{"0.5", false, []int{1}, 2}, {"1", false, []int{1}, 1},
 	{"1.5", false, []int{3}, 2}, {"2", false, []int{2}, 1}, {"29", false, []int{29}, 1}, {"30", false, []int{30}, 1},
 	{"30.5", false, []int{61}, 2}, {"31", false, []int{31}, 1}, {"1000", false, []int{1000}, 1},
 	{"1000000000", false, []int{100000, 10000}, 1},
@@ -258,6 +261,20 @@ func outputJudgeCase(id string, oc outCase, a outAnswer, th thrSpec) (map[string
 			goBad = append(goBad, "json_v2_object_name:"+it.Sym)
 		}
 	}
+	refvals := [][]int{}
+	var rgKeys []string
+	for k := range v2 {
+		if strings.HasPrefix(k, "refgroup.") {
+			rgKeys = append(rgKeys, k)
+		}
+	}
+	sort.Strings(rgKeys)
+	for _, k := range rgKeys {
+		refvals = append(refvals, limbs(v2[k].Value.String()))
+		if v2[k].ReferenceValue != 25000 {
+			goBad = append(goBad, "json_v2_reference_value:"+k)
+		}
+	}
 	pt := parseTable(a.Tables[th.S])
 	rows := []map[string]interface{}{}
 	headers := []map[string]interface{}{}
@@ -317,7 +334,7 @@ func outputJudgeCase(id string, oc outCase, a outAnswer, th thrSpec) (map[string
 	c := map[string]interface{}{"id": id, "vals": vals, "v2": v2vals,
 		"thr":        map[string]interface{}{"neg": th.Neg, "tf": th.TF, "td": th.TD},
 		"noproblems": pt.NoProblems, "rows": rows, "headers": headers, "wtext": wtext, "foot": foot,
-		"extra": extra, "nrefrows": nref}
+		"extra": extra, "nrefrows": nref, "refvals": refvals}
 	return c, goBad
 }
 
@@ -483,7 +500,7 @@ func checkC11(c *Ctx) {
 func cliOutputCases(c *Ctx, rng *rand.Rand) {
 	env := newScanEnv(c, true, false)
 	var scs []cases.ScanCase
-	scs = append(scs, c14Fixture(), bombCase("c11-bomb", 33, 2, "file", 9))
+	scs = append(scs, c14Fixture(), bombCase("c11-bomb", 33, 2, "file", 9), refgroupRowsCase())
 	n := 6
 	if !quick(c) {
 		n = 60
@@ -674,4 +691,22 @@ func init() {
 	checks["C11"] = checkC11
 	replays["output"] = replayOutput
 	replays["output-cli"] = replayOutputCLI
+}
+
+// refgroupRowsCase: reference groups whose symbols are prefixes of one another as strings without being ancestors
+// (rel / releases, foo.a / foo.ab) and nested ones, with 1, 2 and 3 references each.
+func refgroupRowsCase() cases.ScanCase {
+	var g model.Graph
+	g.Blobs = []int{3}
+	g.Trees = [][]model.Entry{{{K: "file", To: 1, N: 1, NL: 1}}}
+	g.Commits = []model.Commit{{Tree: 1, Parents: []int{}}}
+	g.Normalize()
+	var roots []cases.RootSpec
+	for _, n := range []string{"refs/foo/a/x", "refs/foo/ab/x", "refs/foo/ab/y", "refs/heads/main", "refs/rel/rc1", "refs/releases/v1", "refs/releases/v2", "refs/releases/v3", "refs/zz/deep/er/r1", "refs/zz/r0"} {
+		roots = append(roots, cases.RootSpec{O: model.Oid{K: "c", I: 1}, Walk: true, IsRef: true, Name: n, Kind: "plain"})
+	}
+	cfg := "[refgroup \"rel\"]\n\tinclude = refs/rel\n[refgroup \"releases\"]\n\tinclude = refs/releases\n" +
+		"[refgroup \"foo.a\"]\n\tinclude = refs/foo/a\n[refgroup \"foo.ab\"]\n\tinclude = refs/foo/ab\n" +
+		"[refgroup \"zz\"]\n\tinclude = refs/zz\n[refgroup \"zz.deep\"]\n\tinclude = refs/zz/deep\n"
+	return cases.ScanCase{ID: "c11-refgroups", G: g, Names: map[int][]byte{1: []byte("f")}, Style: "hash", Roots: roots, Gitconfig: cfg}
 }
